@@ -383,8 +383,7 @@ func hasVariadicParameter(funType reflect.Type) bool {
 	if numArgs == 0 {
 		return false
 	}
-	last := funType.In(numArgs - 1)
-	return last != nil && last.Kind() == reflect.Slice
+	return funType.IsVariadic()
 }
 
 func convTypeToTarget(source interface{}, target reflect.Type) (interface{}, error) {
